@@ -14,7 +14,9 @@ from graphql import (
     GraphQLInputObjectType, GraphQLInt, GraphQLList, GraphQLNonNull, GraphQLObjectType, GraphQLSchema, GraphQLString,
     Undefined, parse, print_ast, validate,
 )
-from graphql.execution.values import VariableValues, VariableValueSource, get_variable_values
+from graphql.execution.values import (
+    FragmentVariableValues, FragmentVariableValueSource, VariableValues, VariableValueSource, get_variable_values,
+)
 from graphql.language.ast import (
     BooleanValueNode, EnumValueNode, FloatValueNode, IntValueNode, ListValueNode, NameNode, NullValueNode, ObjectFieldNode,
     ObjectValueNode, StringValueNode, VariableNode,
@@ -210,13 +212,13 @@ def build_literal(shape: int, l1, l2):
     ][shape]
 
 
-def literal_agreement(k1: int, k2: int, d: str, sv: str, neg: bool, var_kind: int, *, t: int, shape: int, dlen: int) -> bool:
+def literal_agreement(k1: int, k2: int, d: str, sv: str, neg: bool, var_kind: int, frag_kind: int, *, t: int, shape: int, dlen: int) -> bool:
     """coerce_input_literal(node, T, vars) is Undefined <=> validate_input_literal reports."""
     k1 = forked(k1, 0, N_LEAF)
     k2 = forked(k2, 0, N_LEAF)
     # a bare absent variable is "no value" (Undefined), which argument coercion handles; it is
     # neither a coercion failure nor a validation error
-    assume(not (shape == 0 and k1 == 8))
+    assume(not (shape == 0 and k1 == 8 and True))
     assume(len(d) == dlen and len(sv) <= 1)
     d = fixlen(d, dlen)
     assume(digits_ok(d))
@@ -227,10 +229,22 @@ def literal_agreement(k1: int, k2: int, d: str, sv: str, neg: bool, var_kind: in
     sig = None
     sources = {"v": VariableValueSource(sig, vv), "nul": VariableValueSource(sig, None), "missing": VariableValueSource(sig)}
     variables = VariableValues(sources, {"v": vv, "nul": None})
+    # experimental fragment variables: the fragment may declare $v itself -- with a value from
+    # the spread, or without one (then $v is absent inside the fragment even though the
+    # operation has a variable of the same name) -- or declare the otherwise missing variable
+    frag_kind = forked(frag_kind, 0, 4)
+    fvars = None
+    if frag_kind == 1:
+        fvars = FragmentVariableValues({"v": FragmentVariableValueSource(sig, 2)}, {"v": 2})
+    elif frag_kind == 2:
+        fvars = FragmentVariableValues({"v": FragmentVariableValueSource(sig)}, {})
+    elif frag_kind == 3:
+        fvars = FragmentVariableValues({"missing": FragmentVariableValueSource(sig, "m")}, {"missing": "m"})
+    assume(not (shape == 0 and k1 == 7 and frag_kind == 2))  # bare absent variable: "no value"
     try:
-        r = coerce_input_literal(node, ty, variables)
+        r = coerce_input_literal(node, ty, variables, fvars)
         errs = []
-        validate_input_literal(node, ty, lambda e, p: errs.append(e), variables, None, True)
+        validate_input_literal(node, ty, lambda e, p: errs.append(e), variables, fvars, True)
     except Exception:
         return verdict(False)
     uses_var = k1 >= 7 and k1 <= 9 or (k2 >= 7 and k2 <= 9 and shape in (3, 4, 6, 7, 9, 11))
@@ -359,7 +373,7 @@ def corpus():
     for t in range(len(TYPES)):
         for shape in range(N_SHAPES):
             yield "value_agreement", dict(t=t, shape=shape), dict(base, iv2=2)
-            yield "literal_agreement", dict(t=t, shape=shape, dlen=1), dict(k1=2, k2=4, d="5", sv="A", neg=False, var_kind=0)
+            yield "literal_agreement", dict(t=t, shape=shape, dlen=1), dict(k1=2, k2=4, d="5", sv="A", neg=False, var_kind=0, frag_kind=0)
             yield "rule_agreement", dict(t=t, shape=shape, dlen=1), dict(k1=2, k2=4, d="5", sv="A", neg=False)
         yield "variables_total", dict(t=t, shape=0, default=0), dict(k1=3, k2=3, iv=1, fv=1.5, sv="A", bv=True, present=True)
     yield "literal_roundtrip", dict(t=10, shape=5), dict(base, k1=5, iv2=2)
